@@ -2,8 +2,11 @@
 package main
 
 import (
+	"bytes"
 	"fmt"
+	"io"
 	"os"
+	"os/exec"
 	"runtime/debug"
 	"strings"
 	"time"
@@ -80,6 +83,39 @@ func main() {
 		os.Exit(2)
 	}
 	start := time.Now()
+	// C12, C14 and C20 call the library's pure functions from many goroutines at once. A fatal
+	// runtime fault there (memory corrupted by a function that is no longer re-entrant) cannot be
+	// recovered inside the process: these checks run in a child process, and a child that dies with a
+	// fatal fault inside the library is reported as a violation of "never panics / total"
+	if os.Getenv("VERIF_CHILD") == "" && (os.Args[1] == "C12" || os.Args[1] == "C14" || os.Args[1] == "C20") {
+		cmd := exec.Command(os.Args[0], os.Args[1:]...)
+		cmd.Env = append(os.Environ(), "VERIF_CHILD=1")
+		var errBuf bytes.Buffer
+		cmd.Stdout = os.Stdout
+		cmd.Stderr = io.MultiWriter(&errBuf)
+		err := cmd.Run()
+		code := 0
+		if ee, ok := err.(*exec.ExitError); ok {
+			code = ee.ExitCode()
+		} else if err != nil {
+			fmt.Printf("SELF-CHECK property=%s cannot run the enumeration process: %v\n", os.Args[1], err)
+			os.Exit(2)
+		}
+		es := errBuf.String()
+		if code != 0 && code != 1 && strings.Contains(es, "fatal error:") && strings.Contains(es, "github.com/ElrondNetwork/elrond-vm-common") {
+			short := es
+			if len(short) > 1800 {
+				short = short[:1800]
+			}
+			o := &checks.Outcome{Property: os.Args[1], Tier: tier, Level: "exploration", Start: start,
+				Coverage:    map[string]interface{}{"exhaustive": false, "evaluations": 0, "distinct_nontrivial": 0, "rule": "the enumeration process died with a fatal runtime fault inside the library (reported as the violation below)", "aborted_by_panic": true},
+				Assumptions: []string{"the enumeration calls the library's pure functions from 16 goroutines at once; a fatal fault there is itself the violation"},
+				Violations:  []checks.Viol{{Property: os.Args[1], Clause: "panic", Sig: "library-fatal-fault", Detail: "the enumeration process died with a fatal runtime fault while library functions were running concurrently (a function that keeps state between calls is no longer total under concurrent use):\n" + short, Kind: "case", Replay: map[string]interface{}{"stderr": es}}}}
+			os.Exit(checks.Finish(o))
+		}
+		_, _ = os.Stderr.WriteString(es)
+		os.Exit(code)
+	}
 	rc := func() int {
 		defer crashToVerdict(os.Args[1], tier, start)
 		return f(tier)
